@@ -26,8 +26,8 @@ class QueryingId:
     def __hash__(self):
         w = QueryingId.world
         if w is not None:
-            w.has_component(0, object)
-            w.get_component(0, type(self))
+            w.has_component(0, QueryingId)
+            w.get_component(0, QueryingId)
         return hash(('q', self.n))
 
     def __eq__(self, other):
@@ -214,8 +214,9 @@ class Actors:
                 out |= {b} | anc(b)
             return out
         if deco_.get('maps') and not spec.get('ctrl') and not spec.get(
-                'inst_cb') and not any(i in c['bases']
-                                       for c in self.config['classes']) \
+                'inst_cb') and not any(i in c['bases'] or c.get(
+                    'fake_class') == i
+                    for c in self.config['classes']) \
                 and not any(self.config['classes'][a].get('inst_events')
                             or self.config['classes'][a].get('inst_cb')
                             or self.config['classes'][a].get('ctrl')
